@@ -6,26 +6,35 @@
 EXTENDS Schur, Patterns, TLC
 
 CONSTANTS NN, Stride
-VARIABLES km, pm, adjust, simplec, pc
+VARIABLES km, pm, adjust, simplec, st, pc
 
-vars == <<km, pm, adjust, simplec, pc>>
+vars == <<km, pm, adjust, simplec, st, pc>>
 Val(i, j) == IF i = j THEN 3 + (i % 2) ELSE PatVal(i, j, 1)
-K == LET P == MkCrs(NN, NN, km, 1, FALSE)
-     IN  [P EXCEPT !.val = [p \in 1..Len(P.val) |->
-            LET i == CHOOSE r \in 0..(NN - 1) : Ptr(P, r) < p /\ p <= Ptr(P, r + 1) IN Val(i, P.col[p])]]
+KOf(mask) == LET P == MkCrs(NN, NN, mask, 1, FALSE)
+             IN  [P EXCEPT !.val = [p \in 1..Len(P.val) |->
+                    LET i == CHOOSE r \in 0..(NN - 1) : Ptr(P, r) < p /\ p <= Ptr(P, r + 1) IN Val(i, P.col[p])]]
+K == KOf(km)
 PMasks == {m \in [1..NN -> {0, 1}] : \E a, b \in 1..NN : m[a] = 0 /\ m[b] = 1}
 
+\* the setup (sub-blocks, Kuu_dia, Ld, Lm, matrix for PSolver) is computed once per configuration
+Prepared(mask, m, adj, sc) ==
+    LET S == Setup(KOf(mask), m, adj, sc)
+        dd == DiaDefined(S.uu, sc)
+    IN  [S EXCEPT !.adjust = adj] @@ [dd |-> dd, usable |-> (adj = 0 \/ dd) /\ Solvable(S)]
 Init == /\ km \in {k \in Masks(NN, NN) : k % Stride = 0} /\ pm \in PMasks
         /\ adjust \in 0..2 /\ simplec \in BOOLEAN /\ pc = "setup"
-Next == \/ pc = "setup" /\ pc' = "sop"   /\ UNCHANGED <<km, pm, adjust, simplec>>
-        \/ pc = "sop"   /\ pc' = "type1" /\ UNCHANGED <<km, pm, adjust, simplec>>
-        \/ pc = "type1" /\ pc' = "type2" /\ UNCHANGED <<km, pm, adjust, simplec>>
+        /\ st = Prepared(km, pm, adjust, simplec)
+Next == /\ st.usable
+        /\ \/ pc = "setup" /\ pc' = "sop"
+           \/ pc = "sop"   /\ pc' = "type1"
+           \/ pc = "type1" /\ pc' = "type2"
+        /\ UNCHANGED <<km, pm, adjust, simplec, st>>
 
-St == Setup(K, pm, adjust, simplec)
-Usable == (adjust = 0 \/ DiaDefined(St.uu, simplec)) /\ Solvable(St)
+St == st
+Usable == st.usable
 
 ReassembleInv == pc = "setup" => ReassembleOK(K, pm, Kuu(K, pm), Kup(K, pm), Kpu(K, pm), Kpp(K, pm))
-SchurOpInv    == (pc = "sop" /\ Usable) => SchurOpOK(St, FALSE) /\ (DiaDefined(St.uu, simplec) => SchurOpOK(St, TRUE))
+SchurOpInv    == (pc = "sop" /\ Usable) => SchurOpOK(St, FALSE) /\ (st.dd => SchurOpOK(St, TRUE))
 Type1Inv      == (pc = "type1" /\ Usable) => Type1ExactInverse(K, pm, St)
 Type2Inv      == (pc = "type2" /\ Usable) => Type2UpperOK(K, pm, St)
 =============================================================================
